@@ -1,6 +1,371 @@
-(* C43 - Schema and projection algebra is consistent. Property theorems only. *)
-From LanceV Require Import Common.Base Meta.Model_Schema Meta.Proofs_Schema.
+(* C43 - Schema and projection algebra is consistent. Property theorems only.
+   Model: Meta/Model_Schema.v (transcription of lance-core datatypes/{schema.rs,field.rs} and
+   lance-file datatypes.rs).  Vocabulary used in the statements (all defined in Meta/Proofs_Schema*.v):
+     chains s        root-to-field chains of a schema, pre-order;  achain c = the attributes along c
+     subforest r s   r is s with fields removed: attributes (id, parent id, name, type, nullability,
+                     metadata, encoding) and relative order of the kept fields unchanged
+     addressed s c   c is the chain a list of names designates (first field of that name at each level)
+     hits I f        f or one of its descendants has its id in I;  dhits: a proper descendant has *)
+From LanceV Require Import Common.Base Meta.Model_Schema Meta.Proofs_Schema Meta.Proofs_SchemaTree
+  Meta.Proofs_SchemaPb Meta.Proofs_SchemaIds Meta.Proofs_SchemaNames Meta.Proofs_SchemaMerge Meta.Proofs_SchemaMerge2
+  Meta.Proofs_SchemaProject Meta.Proofs_SchemaIntersect.
 Local Open Scope N_scope.
 
-Example C43_smoke : parse_field_path [97; 46; 98] = Ok [[97]; [98]].
-Proof. reflexivity. Qed.
+(* ---------------------------------------------------------------- field paths *)
+
+(* Any non-empty list of non-empty names - whatever characters they contain, '.' and '`' included -
+   is printed to a string that parses back to exactly that list. *)
+Theorem C43_path_roundtrip : forall p : list str,
+  p <> [] -> Forall (fun s => s <> []) p -> parse_field_path (format_field_path p) = Ok p.
+Proof. exact parse_format_roundtrip. Qed.
+Print Assumptions C43_path_roundtrip.
+
+(* A name without '.' and '`' is a path naming itself. *)
+Theorem C43_plain_name_is_its_path : forall s : str, plain s = true -> parse_field_path s = Ok [s].
+Proof. exact parse_plain. Qed.
+Print Assumptions C43_plain_name_is_its_path.
+
+(* Resolving the printed path of a chain of fields finds exactly that chain (hence that field). *)
+Theorem C43_resolve_finds_the_named_field : forall (s : schema) (chain : list field),
+  addressed s chain -> Forall (fun f => fname f <> []) chain ->
+  resolve s (format_field_path (map fname chain)) = Some chain /\
+  sfield s (format_field_path (map fname chain)) = Some (last chain dflt).
+Proof.
+  intros s chain Ha Hn. split; [exact (resolve_addressed s chain Ha Hn) | exact (sfield_addressed s chain dflt Ha Hn)].
+Qed.
+Print Assumptions C43_resolve_finds_the_named_field.
+
+(* field_path(id) leads back to a field with that id (sibling names distinct, no empty name). *)
+Theorem C43_field_path_resolves : forall (s : schema) (id : Z) (path : str),
+  names_unique s = true -> all_names_nonempty s = true ->
+  field_path s id = Ok path -> exists f, sfield s path = Some f /\ fid f = id.
+Proof. exact field_path_resolves. Qed.
+Print Assumptions C43_field_path_resolves.
+
+(* ---------------------------------------------------------------- projection by ids *)
+
+(* project_by_ids returns a sub-forest of the schema: every kept field keeps all its attributes,
+   its ancestors and its relative position. *)
+Theorem C43_project_by_ids_subforest : forall (s : schema) (I : list Z) (b : bool),
+  subforest (project_by_ids s I b) s.
+Proof. intros s I b. exact (project_by_ids_subforest I s b). Qed.
+Print Assumptions C43_project_by_ids_subforest.
+
+(* include_all_children: the kept fields are exactly those that are selected, lie below a selected
+   field, or lie above one (ancestors_closure of I together with the sub-trees of I). *)
+Theorem C43_project_by_ids_set_semantics_all : forall (s : schema) (I : list Z) (ac : list attrs),
+  In ac (achains (project_by_ids s I true)) <->
+  exists c, In c (chains s) /\ achain c = ac /\
+            (existsb (fun a => zmem (fid a) I) c || dhits I (last c dflt)) = true.
+Proof. exact project_by_ids_chains_all. Qed.
+Print Assumptions C43_project_by_ids_set_semantics_all.
+
+(* without include_all_children: selected fields, their ancestors, and the whole sub-tree of a
+   selected field none of whose descendants is selected (keepF). *)
+Theorem C43_project_by_ids_set_semantics_sel : forall (s : schema) (I : list Z) (ac : list attrs),
+  In ac (achains (project_by_ids s I false)) <->
+  exists c, In c (chains s) /\ achain c = ac /\ keepF I c = true.
+Proof. exact project_by_ids_chains_sel. Qed.
+Print Assumptions C43_project_by_ids_set_semantics_sel.
+
+(* ---------------------------------------------------------------- Projection *)
+
+(* union / intersect / subtract are the set operations on field ids and the boolean operations on
+   the system-column flags; the algebraic laws follow. *)
+Theorem C43_projection_set_operations : forall (p q : projection) (x : Z),
+  (In x (p_ids (union_projection p q)) <-> In x (p_ids p) \/ In x (p_ids q)) /\
+  (In x (p_ids (intersect_projection p q)) <-> In x (p_ids p) /\ In x (p_ids q)) /\
+  (In x (p_ids (subtract_projection p q)) <-> In x (p_ids p) /\ ~ In x (p_ids q)).
+Proof.
+  intros p q x. split; [apply union_projection_spec|]. split; [apply intersect_projection_spec | apply subtract_projection_spec].
+Qed.
+Print Assumptions C43_projection_set_operations.
+
+Theorem C43_projection_laws : forall p q r : projection,
+  p_equiv (union_projection p p) p /\
+  p_equiv (intersect_projection p p) p /\
+  p_equiv (union_projection p q) (union_projection q p) /\
+  p_equiv (intersect_projection p q) (intersect_projection q p) /\
+  p_equiv (union_projection (union_projection p q) r) (union_projection p (union_projection q r)) /\
+  p_equiv (subtract_projection (union_projection p q) q) (subtract_projection p q) /\
+  p_equiv (subtract_projection p (union_projection q r))
+          (intersect_projection (subtract_projection p q) (subtract_projection p r)) /\
+  p_equiv (intersect_projection p (union_projection q r))
+          (union_projection (intersect_projection p q) (intersect_projection p r)) /\
+  p_equiv (intersect_projection p (union_projection p q)) p /\
+  (forall x, ~ In x (p_ids (subtract_projection p p))).
+Proof.
+  intros p q r.
+  repeat split; try (intros x; first [apply proj_subtract_self]);
+  first [apply proj_union_idem | apply proj_inter_idem | apply proj_union_comm | apply proj_inter_comm
+        | apply proj_union_assoc | apply proj_union_subtract | apply proj_subtract_union
+        | apply proj_inter_union_distr | apply proj_absorb | idtac].
+Qed.
+Print Assumptions C43_projection_laws.
+
+(* id sets are kept in canonical (strictly increasing) form, so equivalent projections are equal *)
+Theorem C43_projection_canonical : forall p q : projection,
+  p_wf p -> p_wf q ->
+  p_wf (union_projection p q) /\ p_wf (intersect_projection p q) /\ p_wf (subtract_projection p q) /\
+  (p_equiv p q -> p = q).
+Proof.
+  intros p q Hp Hq. split; [apply union_projection_wf; exact Hp|]. split; [apply intersect_projection_wf; exact Hp|].
+  split; [apply subtract_projection_wf; exact Hp | apply p_equiv_eq; assumption].
+Qed.
+Print Assumptions C43_projection_canonical.
+
+(* union_column(path) adds the resolved field, its ancestors and all its descendants - nothing else *)
+Theorem C43_union_column : forall (base : schema) (p p' : projection) (col : str) (e : bool),
+  is_system_column col = false -> union_column base p col e = Ok p' ->
+  p_flags p' = p_flags p /\
+  match resolve base col with
+  | Some chain => forall x, In x (p_ids p') <-> In x (p_ids p) \/ In x (map fid chain) \/ In x (fdesc_ids (last chain dflt))
+  | None => e = false /\ p' = p
+  end.
+Proof. exact union_column_data. Qed.
+Print Assumptions C43_union_column.
+
+(* to_schema keeps exactly the selected fields and their ancestors, as a sub-forest of the base schema;
+   it panics exactly when a selected nested field has no selected descendant (the assert in
+   Field::apply_projection). *)
+Theorem C43_to_schema_keeps_ancestors : forall (base : schema) (p : projection),
+  (existsb (panics (p_ids p)) base = true -> to_bare_schema base p = Panic) /\
+  (existsb (panics (p_ids p)) base = false ->
+     exists r, to_bare_schema base p = Ok r /\ subforest r base /\
+       forall ac, In ac (achains r) <->
+                  exists c, In c (chains base) /\ achain c = ac /\ hits (p_ids p) (last c dflt) = true).
+Proof. exact to_bare_schema_spec. Qed.
+Print Assumptions C43_to_schema_keeps_ancestors.
+
+(* ---------------------------------------------------------------- stored form and Arrow *)
+
+(* Schema -> pb::Field list -> Schema is the identity when ids are distinct, none is -1, every field
+   records its parent's id, and attributes are canonical (metadata sorted by key, encoding tag <= 4). *)
+Theorem C43_pb_roundtrip : forall s : schema, wf_schema s = true -> of_fields (to_fields s) = Ok s.
+Proof. exact fields_roundtrip. Qed.
+Print Assumptions C43_pb_roundtrip.
+
+Theorem C43_pb_order : forall s : schema, map pb_id (to_fields s) = field_ids s.
+Proof. exact to_fields_ids. Qed.
+Print Assumptions C43_pb_order.
+
+(* set_field_id changes nothing but ids: unassigned (negative) ids are numbered consecutively in
+   pre-order from max(existing)+1, assigned ids are kept, parents are recorded; result ids are
+   non-negative, and distinct whenever the pre-assigned ones were. *)
+Theorem C43_set_field_id : forall (s : schema) (mx : option Z),
+  map strip (set_field_id s mx) = map strip s /\
+  field_ids (set_field_id s mx) = fst (assign (field_ids s) (seed_of s mx)) /\
+  Forall (fun x => 0 <= x)%Z (field_ids (set_field_id s mx)) /\
+  (NoDup (filter (fun x => 0 <=? x)%Z (field_ids s)) -> NoDup (field_ids (set_field_id s mx))).
+Proof.
+  intros s mx. destruct (set_field_id_spec s mx) as [H1 [H2 _]]. destruct (set_field_id_ids s mx) as [H3 H4].
+  repeat split; assumption.
+Qed.
+Print Assumptions C43_set_field_id.
+
+(* Schema::try_from(&ArrowSchema): names, types, nullability, metadata and shape are those of the
+   Arrow schema; ids are fresh, distinct, non-negative; and the result survives the stored form. *)
+Theorem C43_arrow_conversion : forall arrow s : schema,
+  forallb canon_f arrow = true -> of_arrow arrow = Ok s ->
+  map strip s = map strip arrow /\ NoDup (field_ids s) /\ Forall (fun x => 0 <= x)%Z (field_ids s) /\
+  of_fields (to_fields s) = Ok s.
+Proof.
+  intros arrow s Hc H. destruct (of_arrow_spec arrow s H) as [H1 [_ [H3 [H4 H5]]]].
+  repeat split; try assumption. apply fields_roundtrip. apply H5. exact Hc.
+Qed.
+Print Assumptions C43_arrow_conversion.
+
+Theorem C43_arrow_fresh_ids : forall arrow s : schema,
+  Forall (fun x => x < 0)%Z (field_ids arrow) -> of_arrow arrow = Ok s ->
+  field_ids s = map Z.of_nat (seq 0 (length (field_ids arrow))).
+Proof. exact of_arrow_fresh_ids. Qed.
+Print Assumptions C43_arrow_fresh_ids.
+
+(* ---------------------------------------------------------------- operations matching fields by name *)
+
+(* exclude(s, other) is s minus other: a sub-forest of s keeping exactly the fields that have, in their
+   sub-tree, a field whose name path other does not contain (so parents of surviving fields stay).
+   Proved outside two defect classes of the real code (see the _refuted witnesses below). *)
+Theorem C43_exclude_set_semantics : forall s other : schema,
+  forallb shape_ok s = true ->
+  Known_C43_toplevel_name_reparsed s = false ->
+  Known_C43_exclude_toplevel_list s other = false ->
+  exists r, exclude s other = Ok r /\ subforest r s /\
+    forall ac, In ac (achains r) <-> exists c, In c (chains s) /\ achain c = ac /\ keeps_x other c = true.
+Proof.
+  intros s other Hs Hk1 Hk2. apply exclude_semantics; [exact Hs | | exact Hk2].
+  unfold Known_C43_toplevel_name_reparsed in Hk1. apply forallb_forall. intros f Hf.
+  destruct (plain (fname f)) eqn:E; [reflexivity|]. exfalso.
+  assert (X : existsb (fun f => negb (plain (fname f))) s = true) by (apply existsb_exists; exists f; rewrite E; auto).
+  congruence.
+Qed.
+Print Assumptions C43_exclude_set_semantics.
+
+(* merge(s, other), when it succeeds, is the union on name paths: every path of s with s's field
+   (id, name, type, nullability, metadata unchanged), every other path of other with other's field and
+   its id reset to -1; sibling names stay distinct. *)
+Theorem C43_merge_is_union : forall s o r : schema,
+  merge s o = Ok r ->
+  Known_C43_toplevel_name_reparsed s = false ->
+  names_unique s = true -> names_unique o = true -> agree_schema s (map freset_id o) = true ->
+  names_unique r = true /\
+  forall p, p <> [] -> lookup_a r p = orelse (lookup_a s p) (option_map reset_attrs (lookup_a o p)).
+Proof.
+  intros s o r H Hk Hus Huo Hag. apply merge_union; try assumption.
+  unfold Known_C43_toplevel_name_reparsed in Hk. apply forallb_forall. intros f Hf.
+  destruct (plain (fname f)) eqn:E; [reflexivity|]. exfalso.
+  assert (X : existsb (fun f => negb (plain (fname f))) s = true) by (apply existsb_exists; exists f; rewrite E; auto).
+  congruence.
+Qed.
+Print Assumptions C43_merge_is_union.
+
+(* project(columns) (and project_or_drop): when every column exists and starts with a plain top-level
+   name - i.e. outside the two defect classes below - the call succeeds, and a name path p leads to a
+   field of the result iff p lies on, above or below one of the columns (covered); that field then has
+   exactly the attributes (id, name, type, nullability, metadata) it has in s.  Repeated and overlapping
+   columns are merged (Field::merge); sibling names stay distinct. *)
+Theorem C43_project_set_semantics : forall (s : schema) (cols : list str) (err_on_missing : bool),
+  forallb shape_ok s = true -> names_unique s = true -> Forall (col_ok s) cols ->
+  exists r, do_project s cols err_on_missing = Ok r /\
+    nodup_by str_eqb (map fname r) = true /\ (forall c, In c r -> names_unique_f c = true) /\
+    forall p, p <> [] -> lookup_a r p = if covered cols p then lookup_a s p else None.
+Proof. exact project_semantics. Qed.
+Print Assumptions C43_project_set_semantics.
+
+(* the hypothesis col_ok is exactly "outside the defect classes": *)
+Theorem C43_project_domain : forall (s : schema) (col : str),
+  col_ok s col -> Known_C43_dangling_subpath s [col] = false /\
+                  (forall f, sfield s col <> None -> In f s -> fname f = hd [] (col_path col) -> plain (fname f) = true).
+Proof.
+  intros s col H. destruct (col_ok_inv s col H) as [first [rest [f0 [Hp [Hpl [Hf Hr]]]]]]. split.
+  - unfold Known_C43_dangling_subpath. cbn [existsb]. rewrite Hp, Hf. unfold resolve. rewrite Hp, Hf.
+    destruct (fresolve f0 rest); [reflexivity | contradiction].
+  - intros f _ _ Hn. unfold col_path in Hn. rewrite Hp in Hn. cbn [hd] in Hn. rewrite Hn. exact Hpl.
+Qed.
+Print Assumptions C43_project_domain.
+
+(* intersection(s, other) is sound: each result field is a pruning of the top-level field of s with the
+   same name as a field of other (attributes, ids and order of children kept), and - types not ignored -
+   every name path below it exists in other as well.  (Completeness fails in the large_list class and
+   because nested type mismatches are silently dropped: see the witness below.) *)
+Theorem C43_intersection_sound_partial : forall (s o r : schema) (ign : bool),
+  intersection s o ign = Ok r ->
+  forallb ids_nonneg s = true -> Known_C43_toplevel_name_reparsed o = false ->
+  Forall (fun x => exists f of, In f s /\ In of o /\ fname f = fname of /\ subfield x f /\
+                     (ign = false -> shape_ok f = true -> names_unique_f f = true -> paths_within (fch x) (fch of))) r.
+Proof.
+  intros s o r ign H Hid Hk. apply intersection_sound; [exact H | exact Hid|].
+  unfold Known_C43_toplevel_name_reparsed in Hk. apply forallb_forall. intros f Hf.
+  destruct (plain (fname f)) eqn:E; [reflexivity|]. exfalso.
+  assert (X : existsb (fun f => negb (plain (fname f))) o = true) by (apply existsb_exists; exists f; rewrite E; auto).
+  congruence.
+Qed.
+Print Assumptions C43_intersection_sound_partial.
+
+(* ---------------------------------------------------------------- defects of the real code: witnesses *)
+
+(* a : int32, s : struct{x, y.z, q`r}, l : list<item : struct{u, v}>   (ids 0..8, pre-order) *)
+Definition ex_leaf (id pid : Z) (name : str) : field := mkf id pid name (LPrim 6) true [] 1 false [].
+Definition ex_schema : schema :=
+  [ ex_leaf 0 (-1) [97];
+    mkf 1 (-1) [115] LStruct true [] 0 false [ex_leaf 2 1 [120]; ex_leaf 3 1 [121; 46; 122]; ex_leaf 4 1 [113; 96; 114]];
+    mkf 5 (-1) [108] (LList true) true [] 1 false
+      [mkf 6 5 [105;116;101;109] LStruct true [] 0 false [ex_leaf 7 6 [117]; ex_leaf 8 6 [118]]] ].
+
+Definition ex_bt (child : str) : schema :=
+  [mkf 0 (-1) [98; 96; 116] LStruct true [] 0 false [ex_leaf 1 0 child]].          (* b`t : struct{child} *)
+Definition bt_path : str := [96; 98; 96; 96; 116; 96].                              (* `b``t` *)
+
+(* a top-level name with a backtick: its own printed path resolves, yet project refuses it, and
+   merge silently drops other's children *)
+Theorem C43_toplevel_name_reparsed_refuted :
+  exists s o cols,
+    Known_C43_toplevel_name_reparsed s = true /\
+    field_path s 0 = Ok bt_path /\ option_map (map fid) (resolve s bt_path) = Some [0%Z] /\ cols = [bt_path] /\
+    project s cols = Err /\
+    merge s o = Ok s /\ lookup_a o [[98; 96; 116]; [121]] <> None /\ lookup_a s [[98; 96; 116]; [121]] = None.
+Proof.
+  exists (ex_bt [120]), (ex_bt [121]), [bt_path]. repeat split; try (vm_compute; reflexivity). vm_compute. discriminate.
+Qed.
+Print Assumptions C43_toplevel_name_reparsed_refuted.
+
+(* a column whose tail does not exist is accepted (truncated parent) or panics *)
+Theorem C43_dangling_subpath_refuted :
+  exists s c1 c2,
+    Known_C43_dangling_subpath s c1 = true /\ Known_C43_dangling_subpath s c2 = true /\
+    (exists r, project s c1 = Ok r /\ field_ids r = [1%Z]) /\ project s c2 = Panic.
+Proof.
+  exists ex_schema, [[115; 46; 110; 111; 112; 101]], [[108; 46; 110; 111; 112; 101]; [108; 46; 105; 116; 101; 109]].
+  split; [vm_compute; reflexivity|]. split; [vm_compute; reflexivity|]. split; [|vm_compute; reflexivity].
+  eexists. split; vm_compute; reflexivity.
+Qed.
+Print Assumptions C43_dangling_subpath_refuted.
+
+(* excluding one leaf of a top-level list<struct> drops the whole list *)
+Theorem C43_exclude_toplevel_list_refuted :
+  exists s other,
+    forallb shape_ok s = true /\ Known_C43_toplevel_name_reparsed s = false /\
+    Known_C43_exclude_toplevel_list s other = true /\
+    project s [[108; 46; 105; 116; 101; 109; 46; 117]] = Ok other /\
+    exclude s other = Ok [] /\ field_ids (exclude_spec s other) = [5; 6; 8]%Z.
+Proof.
+  exists [nth 2 ex_schema dflt]. eexists. repeat split; try (vm_compute; reflexivity).
+Qed.
+Print Assumptions C43_exclude_toplevel_list_refuted.
+
+Definition ex_large (children : list field) : schema :=
+  [mkf 0 (-1) [99] (LLargeList true) true [] 1 false [mkf 1 0 [105;116;101;109] LStruct true [] 0 false children]].
+
+(* large_list<struct{p,q}> against large_list<struct{p}>: refused, or (ignoring types) q survives *)
+Theorem C43_intersection_large_list_refuted :
+  exists s o,
+    Known_C43_intersection_large_list s o = true /\
+    intersection s o false = Err /\
+    intersection s o true = Ok s /\ lookup_a s [[99]; [105;116;101;109]; [113]] <> None /\
+    lookup_a o [[99]; [105;116;101;109]; [113]] = None.
+Proof.
+  exists (ex_large [ex_leaf 2 1 [112]; ex_leaf 3 1 [113]]), (ex_large [ex_leaf 2 1 [112]]).
+  repeat split; try (vm_compute; reflexivity). vm_compute. discriminate.
+Qed.
+Print Assumptions C43_intersection_large_list_refuted.
+
+(* ---------------------------------------------------------------- non-vacuity *)
+
+Example C43_nonvacuous_paths :
+  format_field_path [[115]; [121; 46; 122]] = [115; 46; 96; 121; 46; 122; 96]
+  /\ option_map (map fid) (resolve ex_schema [115; 46; 96; 121; 46; 122; 96]) = Some [1; 3]%Z
+  /\ field_path ex_schema 4 = Ok [115; 46; 96; 113; 96; 96; 114; 96]
+  /\ names_unique ex_schema = true /\ all_names_nonempty ex_schema = true.
+Proof. repeat split; reflexivity. Qed.
+
+Example C43_nonvacuous_ids :
+  field_ids (project_by_ids ex_schema [3; 7]%Z true) = [1; 3; 5; 6; 7]%Z
+  /\ field_ids (project_by_ids ex_schema [1; 3; 5]%Z false) = [1; 3; 5; 6; 7; 8]%Z
+  /\ wf_schema ex_schema = true
+  /\ of_fields (to_fields ex_schema) = Ok ex_schema
+  /\ option_map field_ids (match of_arrow (map freset_id ex_schema) with Ok s => Some s | _ => None end)
+     = Some [0; 1; 2; 3; 4; 5; 6; 7; 8]%Z.
+Proof. repeat split; vm_compute; reflexivity. Qed.
+
+Definition ex_cols : list str :=
+  [ [115; 46; 96; 121; 46; 122; 96];            (* s.`y.z` *)
+    [108; 46; 105; 116; 101; 109; 46; 117];     (* l.item.u *)
+    [115; 46; 120] ].                           (* s.x *)
+Example C43_nonvacuous_project :
+  forallb shape_ok ex_schema = true /\ Forall (col_ok ex_schema) ex_cols
+  /\ (match project ex_schema ex_cols with Ok r => Some (field_ids r) | _ => None end) = Some [1; 3; 2; 5; 6; 7]%Z
+  /\ covered ex_cols [[108]; [105;116;101;109]; [118]] = false
+  /\ (match exclude ex_schema [nth 1 ex_schema dflt] with Ok r => Some (field_ids r) | _ => None end) = Some [0; 5; 6; 7; 8]%Z
+  /\ Known_C43_exclude_toplevel_list ex_schema [nth 1 ex_schema dflt] = false
+  /\ agree_schema (ex_bt [120]) (map freset_id (ex_bt [121])) = true.
+Proof.
+  split; [vm_compute; reflexivity|]. split.
+  - repeat constructor; try (vm_compute; discriminate); vm_compute; reflexivity.
+  - repeat split; vm_compute; reflexivity.
+Qed.
+
+Example C43_nonvacuous_to_schema :
+  (match to_schema ex_schema (mkP [3; 8]%Z true false false false) with Ok s => Some (field_ids s) | _ => None end)
+    = Some [1; 3; 5; 6; 8; -1]%Z
+  /\ to_bare_schema ex_schema (mkP [1]%Z false false false false) = Panic.
+Proof. split; vm_compute; reflexivity. Qed.
